@@ -245,12 +245,15 @@ def run(args, rep):
             'py27-exec-in-nested': ("def outer_function(first_argument):\n    long_local_name = first_argument + 1\n    def inner_function():\n        exec 'pass'\n        return 1\n"
                                     "    return inner_function() + long_local_name\nprint outer_function(2)\n"),
         }
+        import keyword as _kw
+        KEYWORDS27 = set(_kw.kwlist) | {'exec', 'print'}
         import io as _io
         import tokenize as _tok
 
         def names_of(text):
             try:
-                return sorted(t.string for t in _tok.generate_tokens(_io.StringIO(text).readline) if t.type == _tok.NAME)
+                # identifiers only: `exec code in ns` and `exec(code, ns)` are one statement, the keyword `in` is not a name of the program
+                return sorted(t.string for t in _tok.generate_tokens(_io.StringIO(text).readline) if t.type == _tok.NAME and t.string not in KEYWORDS27)
             except Exception:  # noqa
                 return ['<untokenizable>']
         reqs = []
